@@ -1,8 +1,328 @@
 import PyresampleModel.Model.C18
+import PyresampleModel.Proofs.Num
 
 /-
-  C18 — property theorems (stub: none yet).
+  C18 — property theorems: every module's cell assignment vs the reference `cellOf`
+  (the cell whose extent contains the point), for every well-formed grid and every point.
 -/
 namespace PyresampleModel.C18
+open PyresampleModel.Grid
+
+/-- a well-formed (non-flipped, non-empty) area -/
+structure WF (g : Grid) : Prop where
+  wpos : 0 < g.w
+  hpos : 0 < g.h
+  xpos : g.x0 < g.x1
+  ypos : g.y0 < g.y1
+
+theorem dx_pos {g : Grid} (hg : WF g) : 0 < g.dx := by
+  unfold Grid.dx
+  have : (0 : Rat) < g.w := by exact_mod_cast hg.wpos
+  have h2 : 0 < g.x1 - g.x0 := by linarith [hg.xpos]
+  positivity
+
+theorem dy_pos {g : Grid} (hg : WF g) : 0 < g.dy := by
+  unfold Grid.dy
+  have : (0 : Rat) < g.h := by exact_mod_cast hg.hpos
+  have h2 : 0 < g.y1 - g.y0 := by linarith [hg.ypos]
+  positivity
+
+theorem w_dx {g : Grid} (hg : WF g) : (g.w : Rat) * g.dx = g.x1 - g.x0 := by
+  unfold Grid.dx
+  have : (g.w : Rat) ≠ 0 := by exact_mod_cast (Nat.pos_iff_ne_zero.mp hg.wpos)
+  field_simp
+
+theorem h_dy {g : Grid} (hg : WF g) : (g.h : Rat) * g.dy = g.y1 - g.y0 := by
+  unfold Grid.dy
+  have : (g.h : Rat) ≠ 0 := by exact_mod_cast (Nat.pos_iff_ne_zero.mp hg.hpos)
+  field_simp
+
+/-- `pixel_offset_x + x / pixel_size_x` is `(x - xmin) / pixel_size_x` -/
+theorem offx_form (g : Grid) (x : Rat) : g.offx + x / g.dx = (x - g.x0) / g.dx := by
+  unfold Grid.offx; ring
+
+theorem offy_form (g : Grid) (y : Rat) : g.offy - y / g.dy = (g.y1 - y) / g.dy := by
+  unfold Grid.offy; ring
+
+/-- **quick grid sampling** assigns exactly the containing cell, or none -/
+theorem linesample_eq_cellOf (g : Grid) (x y : Rat) : linesampleCell g x y = cellOf g x y := by
+  simp only [linesampleCell, linesample, validCell, cellOf, offx_form, offy_form]
+
+/-- **GridFilter** -/
+theorem gridFilter_eq_cellOf (g : Grid) (x y : Rat) : gridFilterCell g x y = cellOf g x y := by
+  have : x / g.dx + g.offx = (x - g.x0) / g.dx := by rw [add_comm]; exact offx_form g x
+  simp only [gridFilterCell, validCell, cellOf, this, offy_form]
+
+/-- **bucket indices** -/
+theorem bucket_eq_cellOf (g : Grid) (x y : Rat) : bucketCell g x y = cellOf g x y := by
+  simp only [bucketCell, bucketIdx, cellOf]
+  split
+  · rename_i h
+    simp only [if_neg (not_lt.mpr h.2.2.1)]
+  · simp
+
+
+/-- the reference semantics, spelled out: `cellOf = some (r, c)` iff the half-open extent of
+cell (r, c) contains the point -/
+theorem cellOf_some_iff {g : Grid} (hg : WF g) (x y : Rat) (r c : Nat) :
+    cellOf g x y = some (r, c) ↔
+      c < g.w ∧ r < g.h ∧ g.x0 + c * g.dx ≤ x ∧ x < g.x0 + (c + 1) * g.dx ∧
+      g.y1 - (r + 1) * g.dy < y ∧ y ≤ g.y1 - r * g.dy := by
+  have hdx := dx_pos hg
+  have hdy := dy_pos hg
+  simp only [cellOf]
+  constructor
+  · intro h
+    split at h
+    · rename_i hv
+      obtain ⟨h1, h2, h3, h4⟩ := hv
+      simp only [Option.some.injEq, Prod.mk.injEq] at h
+      obtain ⟨hr, hc⟩ := h
+      have hc' : pyFloor ((x - g.x0) / g.dx) = (c : Int) := by omega
+      have hr' : pyFloor ((g.y1 - y) / g.dy) = (r : Int) := by omega
+      rw [hc'] at h2
+      rw [hr'] at h4
+      rw [pyFloor_eq_iff] at hc' hr'
+      refine ⟨by exact_mod_cast h2, by exact_mod_cast h4, ?_, ?_, ?_, ?_⟩
+      · have := (le_div_iff₀ hdx).mp hc'.1; push_cast at this; linarith
+      · have := (div_lt_iff₀ hdx).mp hc'.2; push_cast at this; linarith
+      · have := (div_lt_iff₀ hdy).mp hr'.2; push_cast at this; linarith
+      · have := (le_div_iff₀ hdy).mp hr'.1; push_cast at this; linarith
+    · simp at h
+  · intro ⟨hc, hr, h1, h2, h3, h4⟩
+    have hc' : pyFloor ((x - g.x0) / g.dx) = (c : Int) := by
+      rw [pyFloor_eq_iff]; push_cast
+      exact ⟨(le_div_iff₀ hdx).mpr (by linarith), (div_lt_iff₀ hdx).mpr (by linarith)⟩
+    have hr' : pyFloor ((g.y1 - y) / g.dy) = (r : Int) := by
+      rw [pyFloor_eq_iff]; push_cast
+      exact ⟨(le_div_iff₀ hdy).mpr (by linarith), (div_lt_iff₀ hdy).mpr (by linarith)⟩
+    rw [hc', hr']
+    have : (0 : Int) ≤ c ∧ (c : Int) < g.w ∧ (0 : Int) ≤ r ∧ (r : Int) < g.h := by omega
+    rw [if_pos this]
+    simp
+
+/-- a point outside the area's (half-open) extent belongs to no cell — in particular not to
+the first row or column -/
+theorem cellOf_none_of_outside {g : Grid} (hg : WF g) (x y : Rat)
+    (h : x < g.x0 ∨ g.x1 ≤ x ∨ y ≤ g.y0 ∨ g.y1 < y) : cellOf g x y = none := by
+  cases hc : cellOf g x y with
+  | none => rfl
+  | some p =>
+    obtain ⟨r, c⟩ := p
+    obtain ⟨hc1, hr1, h1, h2, h3, h4⟩ := (cellOf_some_iff hg x y r c).mp hc
+    have hdx := dx_pos hg
+    have hdy := dy_pos hg
+    have hw := w_dx hg
+    have hh := h_dy hg
+    have hcw : ((c : Rat) + 1) ≤ g.w := by exact_mod_cast hc1
+    have hrh : ((r : Rat) + 1) ≤ g.h := by exact_mod_cast hr1
+    have hc0 : (0 : Rat) ≤ c := by positivity
+    have hr0 : (0 : Rat) ≤ r := by positivity
+    have e1 : ((c : Rat) + 1) * g.dx ≤ g.w * g.dx := by nlinarith
+    have e2 : ((r : Rat) + 1) * g.dy ≤ g.h * g.dy := by nlinarith
+    have e3 : 0 ≤ (c : Rat) * g.dx := by positivity
+    have e4 : 0 ≤ (r : Rat) * g.dy := by positivity
+    rcases h with h | h | h | h <;> exfalso <;> linarith
+
+
+theorem arrX_form {g : Grid} (hg : WF g) (x : Rat) : g.arrX x = (x - g.x0) / g.dx - 1/2 := by
+  have := (dx_pos hg).ne'
+  unfold Grid.arrX Grid.uplx
+  field_simp; ring
+
+theorem arrY_form {g : Grid} (hg : WF g) (y : Rat) : g.arrY y = (g.y1 - y) / g.dy - 1/2 := by
+  have := (dy_pos hg).ne'
+  unfold Grid.arrY Grid.uply
+  field_simp; ring
+
+/-- one axis of `masked_ints`: strictly inside pixel `c` ⇒ unmasked and index `c` -/
+theorem maskedInt_interior (n c : Nat) (hc : c < n) (u : Rat) (h1 : (c : Rat) - 1/2 < u) (h2 : u < (c : Rat) + 1/2) :
+    maskedInt u n = (false, (c : Int)) := by
+  have hcn : (c : Rat) + 1 ≤ n := by exact_mod_cast hc
+  have hc0 : (0 : Rat) ≤ c := by positivity
+  simp only [maskedInt, Prod.mk.injEq]
+  constructor
+  · simp only [Bool.or_eq_false_iff, decide_eq_false_iff_not, not_lt]
+    constructor <;> linarith
+  · simp only [clip]
+    split
+    · rename_i hneg
+      -- u < 0 ⇒ c = 0
+      have : (c : Rat) < 1/2 := by linarith
+      have hc' : c = 0 := by
+        rcases Nat.eq_zero_or_pos c with h | h
+        · exact h
+        · have : (1 : Rat) ≤ c := by exact_mod_cast h
+          linarith
+      subst hc'
+      exact roundHalfEven_eq (by norm_num) (by norm_num)
+    · split
+      · rename_i hhi
+        -- u > n - 1 ⇒ c = n - 1
+        have h3 : (n : Rat) - 1 < (c : Rat) + 1/2 := by linarith
+        have hc' : (c : Rat) = (n : Rat) - 1 := by
+          have : (n : Rat) < (c : Rat) + 2 := by linarith
+          have : n < c + 2 := by exact_mod_cast this
+          have : c + 1 = n := by omega
+          rw [← this]; push_cast; ring
+        rw [← hc']
+        exact roundHalfEven_eq (by push_cast; linarith) (by push_cast; linarith)
+      · exact roundHalfEven_eq (by push_cast; linarith) (by push_cast; linarith)
+
+/-- one axis of `masked_ints`: beyond the documented tolerance ⇒ masked -/
+theorem maskedInt_outside (n : Nat) (u : Rat) (h : u < -(1/2) - 2/100 ∨ (n : Rat) - 1/2 + 2/100 < u) :
+    (maskedInt u n).1 = true := by
+  simp only [maskedInt, Bool.or_eq_true, decide_eq_true_eq]
+  exact h
+
+theorem roundHalfEven_natCast (k : Nat) : roundHalfEven (k : Rat) = (k : Int) :=
+  roundHalfEven_eq (c := (k : Int)) (by push_cast; linarith) (by push_cast; linarith)
+
+/-- one axis of `masked_ints`: for a value inside the closed extent the result is a valid index
+whose pixel (closed) contains the value -/
+theorem maskedInt_contains (n : Nat) (hn : 0 < n) (u : Rat) (hlo : -(1/2) ≤ u) (hhi : u ≤ (n : Rat) - 1/2) :
+    0 ≤ (maskedInt u n).2 ∧ (maskedInt u n).2 < n ∧
+    ((maskedInt u n).2 : Rat) - 1/2 ≤ u ∧ u ≤ ((maskedInt u n).2 : Rat) + 1/2 := by
+  have hn1 : (1 : Rat) ≤ n := by exact_mod_cast hn
+  simp only [maskedInt, clip]
+  split
+  · rename_i h
+    have : roundHalfEven (0 : Rat) = 0 := by simpa using roundHalfEven_natCast 0
+    rw [this]
+    refine ⟨le_refl _, by exact_mod_cast hn, ?_, ?_⟩ <;> push_cast <;> linarith
+  · split
+    · rename_i h1 h2
+      have h3 : roundHalfEven ((n : Rat) - 1) = ((n - 1 : Nat) : Int) := by
+        have : ((n : Rat) - 1) = ((n - 1 : Nat) : Rat) := by
+          rw [Nat.cast_sub hn]; simp
+        rw [this]; exact roundHalfEven_natCast _
+      rw [h3]
+      have h4 : (((n - 1 : Nat) : Int) : Rat) = (n : Rat) - 1 := by
+        rw [Int.cast_natCast, Nat.cast_sub hn]; simp
+      refine ⟨by omega, by omega, ?_, ?_⟩ <;> rw [h4] <;> linarith
+    · rename_i h1 h2
+      have hs := roundHalfEven_spec u
+      have hlo' : (-1 : Rat) < roundHalfEven u := by linarith [hs.2, not_lt.mp h1]
+      have hhi' : ((roundHalfEven u : Int) : Rat) < n := by linarith [hs.1, not_lt.mp h2]
+      refine ⟨?_, by exact_mod_cast hhi', hs.1, hs.2⟩
+      have : (-1 : Int) < roundHalfEven u := by exact_mod_cast hlo'
+      omega
+
+
+theorem areaCell_def (g : Grid) (x y : Rat) : areaCell g x y =
+    if ((maskedInt (g.arrY y) g.h).1 || (maskedInt (g.arrX x) g.w).1) = true then none
+    else some ((maskedInt (g.arrY y) g.h).2.toNat, (maskedInt (g.arrX x) g.w).2.toNat) := rfl
+
+/-- **area index lookup**: a point strictly inside cell (r, c) is attributed to (r, c) -/
+theorem area_interior {g : Grid} (hg : WF g) (x y : Rat) (r c : Nat) (hc : c < g.w) (hr : r < g.h)
+    (h1 : g.x0 + c * g.dx < x) (h2 : x < g.x0 + (c + 1) * g.dx)
+    (h3 : g.y1 - (r + 1) * g.dy < y) (h4 : y < g.y1 - r * g.dy) :
+    areaCell g x y = some (r, c) := by
+  have hdx := dx_pos hg
+  have hdy := dy_pos hg
+  have hx : maskedInt (g.arrX x) g.w = (false, (c : Int)) := by
+    apply maskedInt_interior _ _ hc
+    · rw [arrX_form hg]; have := (lt_div_iff₀ hdx).mpr (show (c : Rat) * g.dx < x - g.x0 by linarith); linarith
+    · rw [arrX_form hg]; have := (div_lt_iff₀ hdx).mpr (show x - g.x0 < ((c : Rat) + 1) * g.dx by linarith); linarith
+  have hy : maskedInt (g.arrY y) g.h = (false, (r : Int)) := by
+    apply maskedInt_interior _ _ hr
+    · rw [arrY_form hg]; have := (lt_div_iff₀ hdy).mpr (show (r : Rat) * g.dy < g.y1 - y by linarith); linarith
+    · rw [arrY_form hg]; have := (div_lt_iff₀ hdy).mpr (show g.y1 - y < ((r : Rat) + 1) * g.dy by linarith); linarith
+  simp [areaCell, areaIdx, hx, hy]
+
+/-- **area index lookup**: beyond the documented edge tolerance (0.02 px) the point is masked -/
+theorem area_none_outside {g : Grid} (hg : WF g) (x y : Rat)
+    (h : x < g.x0 - 2/100 * g.dx ∨ g.x1 + 2/100 * g.dx < x ∨ y < g.y0 - 2/100 * g.dy ∨ g.y1 + 2/100 * g.dy < y) :
+    areaCell g x y = none := by
+  have hdx := dx_pos hg
+  have hdy := dy_pos hg
+  have hw := w_dx hg
+  have hh := h_dy hg
+  have key : (maskedInt (g.arrY y) g.h).1 = true ∨ (maskedInt (g.arrX x) g.w).1 = true := by
+    rcases h with h | h | h | h
+    · right; apply maskedInt_outside; left
+      rw [arrX_form hg]
+      have := (div_lt_iff₀ hdx).mpr (show x - g.x0 < (-(2/100)) * g.dx by linarith); linarith
+    · right; apply maskedInt_outside; right
+      rw [arrX_form hg]
+      have := (lt_div_iff₀ hdx).mpr (show ((g.w : Rat) + 2/100) * g.dx < x - g.x0 by linarith); linarith
+    · left; apply maskedInt_outside; right
+      rw [arrY_form hg]
+      have := (lt_div_iff₀ hdy).mpr (show ((g.h : Rat) + 2/100) * g.dy < g.y1 - y by linarith); linarith
+    · left; apply maskedInt_outside; left
+      rw [arrY_form hg]
+      have := (div_lt_iff₀ hdy).mpr (show g.y1 - y < (-(2/100)) * g.dy by linarith); linarith
+  simp only [areaCell, areaIdx]
+  rcases key with k | k <;> simp [k]
+
+/-- **area index lookup**: for a point inside the area's closed extent, the returned pixel is a
+valid one and its (closed) extent contains the point -/
+theorem area_some_contains {g : Grid} (hg : WF g) (x y : Rat) (r c : Nat)
+    (hx0 : g.x0 ≤ x) (hx1 : x ≤ g.x1) (hy0 : g.y0 ≤ y) (hy1 : y ≤ g.y1)
+    (h : areaCell g x y = some (r, c)) :
+    c < g.w ∧ r < g.h ∧ g.x0 + c * g.dx ≤ x ∧ x ≤ g.x0 + (c + 1) * g.dx ∧
+    g.y1 - (r + 1) * g.dy ≤ y ∧ y ≤ g.y1 - r * g.dy := by
+  have hdx := dx_pos hg
+  have hdy := dy_pos hg
+  have hw := w_dx hg
+  have hh := h_dy hg
+  have ux : -(1/2) ≤ g.arrX x ∧ g.arrX x ≤ (g.w : Rat) - 1/2 := by
+    rw [arrX_form hg]
+    have a := (le_div_iff₀ hdx).mpr (show (0 : Rat) * g.dx ≤ x - g.x0 by linarith)
+    have b := (div_le_iff₀ hdx).mpr (show x - g.x0 ≤ (g.w : Rat) * g.dx by linarith)
+    constructor <;> linarith
+  have uy : -(1/2) ≤ g.arrY y ∧ g.arrY y ≤ (g.h : Rat) - 1/2 := by
+    rw [arrY_form hg]
+    have a := (le_div_iff₀ hdy).mpr (show (0 : Rat) * g.dy ≤ g.y1 - y by linarith)
+    have b := (div_le_iff₀ hdy).mpr (show g.y1 - y ≤ (g.h : Rat) * g.dy by linarith)
+    constructor <;> linarith
+  obtain ⟨cx0, cx1, cx2, cx3⟩ := maskedInt_contains g.w hg.wpos _ ux.1 ux.2
+  obtain ⟨cy0, cy1, cy2, cy3⟩ := maskedInt_contains g.h hg.hpos _ uy.1 uy.2
+  rw [areaCell_def] at h
+  by_cases hm : ((maskedInt (g.arrY y) g.h).1 || (maskedInt (g.arrX x) g.w).1) = true
+  · rw [if_pos hm] at h; simp at h
+  · rw [if_neg hm] at h
+    simp only [Option.some.injEq, Prod.mk.injEq] at h
+    obtain ⟨hr, hc⟩ := h
+    have ec : ((maskedInt (g.arrX x) g.w).2 : Int) = (c : Int) := by omega
+    have er : ((maskedInt (g.arrY y) g.h).2 : Int) = (r : Int) := by omega
+    rw [ec] at cx1 cx2 cx3
+    rw [er] at cy1 cy2 cy3
+    rw [arrX_form hg] at cx2 cx3
+    rw [arrY_form hg] at cy2 cy3
+    push_cast at cx2 cx3 cy2 cy3
+    refine ⟨by exact_mod_cast cx1, by exact_mod_cast cy1, ?_, ?_, ?_, ?_⟩
+    · have := (le_div_iff₀ hdx).mp (show (c : Rat) ≤ (x - g.x0) / g.dx by linarith); linarith
+    · have := (div_le_iff₀ hdx).mp (show (x - g.x0) / g.dx ≤ (c : Rat) + 1 by linarith); linarith
+    · have := (div_le_iff₀ hdy).mp (show (g.y1 - y) / g.dy ≤ (r : Rat) + 1 by linarith); linarith
+    · have := (le_div_iff₀ hdy).mp (show (r : Rat) ≤ (g.y1 - y) / g.dy by linarith); linarith
+
+/-- **EWA ll2cr** returns the fractional column/row the area itself assigns -/
+theorem ll2cr_eq_arr {g : Grid} (hg : WF g) (x y : Rat) :
+    ll2crCol g x = g.arrX x ∧ ll2crRow g y = g.arrY y := by
+  have hdy := dy_pos hg
+  constructor
+  · rfl
+  · simp only [ll2crRow, if_pos hdy.le, Grid.arrY, Grid.uply]
+    congr 1; ring
+
+/-- … hence the cell whose centre is nearest to the ll2cr position is the containing cell -/
+theorem ll2cr_cell {g : Grid} (hg : WF g) (x y : Rat) :
+    pyFloor (ll2crCol g x + 1/2) = pyFloor ((x - g.x0) / g.dx) ∧
+    pyFloor (ll2crRow g y + 1/2) = pyFloor ((g.y1 - y) / g.dy) := by
+  obtain ⟨h1, h2⟩ := ll2cr_eq_arr hg x y
+  rw [h1, h2, arrX_form hg, arrY_form hg]
+  constructor <;> congr 1 <;> ring
+
+/-- the defect repaired by the `fix:` commit: with truncation a point half a pixel left of and
+above a 4×4 grid belongs to no cell, yet was attributed to cell (0, 0) -/
+theorem linesampleOld_first_cell_defect :
+    ∃ (g : Grid) (x y : Rat), WF g ∧ cellOf g x y = none ∧ linesampleOldCell g x y = some (0, 0) := by
+  refine ⟨⟨0, 0, 4, 4, 4, 4⟩, -1/2, 9/2, ⟨by decide, by decide, by decide +kernel, by decide +kernel⟩, by decide +kernel, by decide +kernel⟩
+
+/-! non-vacuity -/
+example : WF ⟨0, 0, 4, 4, 4, 4⟩ := ⟨by decide, by decide, by decide +kernel, by decide +kernel⟩
+example : cellOf ⟨0, 0, 4, 4, 4, 4⟩ (5/2) (1/2) = some (3, 2) := by decide +kernel
+example : areaCell ⟨0, 0, 4, 4, 4, 4⟩ (5/2) (1/2) = some (3, 2) := by decide +kernel
 
 end PyresampleModel.C18
